@@ -46,6 +46,7 @@ def run(ctx):
     ctx.rule('HASHCANON', 'every simplex hash in the flip code is computed over the u64-sorted key sequence')
     ctx.rule('NEWORIENT', 'a new cell found negatively oriented is reordered before it is inserted')
     ctx.rule('DIMGATE', 'each flip context builder refuses dimensions below the size of its move')
+    ctx.rule('NEWINC', 'the k=1 split clears the caller\'s incident_cell and gives the stored vertex one of the new cells')
     ctx.rule('KARG', 'the run-time k of the dynamic flip entry is a function of the const dimension alone and siblings agree on it')
     ctx.rule('POSTFLIP', 'a flip layer reports success only behind neighbour wiring, removal of the old cells and the '
                          'coherent-orientation normalisation')
@@ -57,6 +58,7 @@ def run(ctx):
         _postflip(ctx, cfg, prog, lv)
         _dimgate(ctx, cfg, prog)
         _karg(ctx, cfg, prog, ctx.mod(cfg))
+        _newinc(ctx, cfg, prog, ctx.mod(cfg))
         _newcellorient(ctx, cfg, prog, ctx.mod(cfg))
         kb = ctx.anchor(cfg, KERNEL)
         if kb is None:
@@ -284,6 +286,78 @@ MIN_DIM = {
     F + 'build_k2_flip_context_from_edge': 3,
     F + 'build_k3_flip_context_from_triangle': 4,
 }
+
+
+K1FWD = 'core::algorithms::flips::apply_bistellar_flip_k1'
+INSVERT = T + 'insert_vertex_with_mapping'
+
+
+def _newinc(ctx, cfg, prog, mod):
+    """NEWINC (after fix F26): the k=1 cell split stores a caller-supplied vertex.  (a) The `incident_cell` of the value
+    handed to `insert_vertex_with_mapping` is overwritten first (the caller's copy may point into another triangulation);
+    (b) on the success side of the kernel result the stored vertex receives an incident cell: the kernel only repairs
+    pointers that referenced removed cells, and a vertex left with `None` makes later insertions report it isolated."""
+    import c09
+    b = ctx.anchor(cfg, K1FWD)
+    if b is None:
+        return
+    al = mod.aliases(K1FWD)
+    site = '%s:%d' % (b.file, b.line)
+    ins = [(bb, t) for bb, t in b.calls() if (t.resolved or t.callee) == INSVERT]
+    ctx.floor('insert_vertex_with_mapping calls in the k=1 split', 1, len(ins), cfg)
+    for bb, t in ins:
+        arg = t.args[1] if len(t.args) > 1 else None
+        roots = set()
+        if arg is not None and arg.place is not None:
+            l = arg.place.local
+            for _ in range(4):
+                roots.add(l)
+                d = b.single_def(l)
+                if d is None or d[1] == 'term' or d[2].rv.k != 'use' or not d[2].rv.ops or d[2].rv.ops[0].place is None:
+                    break
+                l = d[2].rv.ops[0].place.local
+        cleared = False
+        for blk in b.blocks:
+            if blk.cleanup:
+                continue
+            for s_ in blk.stmts:
+                if s_.kind == 'A' and not s_.place.is_local() and s_.place.local in roots and s_.place.proj and \
+                        str(s_.place.proj[-1]).endswith('incident_cell') and (blk.idx == bb or b.dominates(blk.idx, bb)):
+                    cleared = True
+        ctx.ob('NEWINC', K1FWD + '|caller-pointer-cleared', cfg, cleared,
+               'the incident_cell of the vertex handed to insert_vertex_with_mapping is overwritten before the call' if cleared else
+               'the vertex is stored with the incident_cell of the caller\'s copy: a copy from another triangulation (or from '
+               'before a removal) leaves a dangling pointer after a successful flip', site=site)
+    # (b) success side
+    kern = [(bb, t) for bb, t in b.calls() if 'apply_bistellar_flip' in (t.resolved or t.callee or '') or
+            'and_then' in (t.resolved or t.callee or '')]
+    ok_edges = set()
+    for bb, t in b.calls():
+        if t.dest is not None and t.dest.is_local() and 'FlipInfo' in b.locals[t.dest.local] and \
+                b.locals[t.dest.local].startswith('std::result::Result<'):
+            ok_edges |= c09._variant_edges(b, t.dest.local, 0)
+            # `match &result`: the discriminant is read through a reference
+            for blk in b.blocks:
+                for s_ in blk.stmts:
+                    if s_.kind == 'A' and s_.place.is_local() and s_.rv.k == 'ref' and s_.rv.place is not None and \
+                            s_.rv.place.is_local() and s_.rv.place.local == t.dest.local:
+                        ok_edges |= c09._variant_edges(b, s_.place.local, 0)
+    region = flow.reach_edges(b, [d for (_, d) in ok_edges]) if ok_edges else set()
+    stores = []
+    for blk in b.blocks:
+        if blk.cleanup or blk.idx not in region:
+            continue
+        for s_ in blk.stmts:
+            if s_.kind == 'A' and not s_.place.is_local() and s_.place.proj and str(s_.place.proj[-1]).endswith('incident_cell') \
+                    and '*' in s_.place.proj:
+                stores.append(s_.line)
+        t = blk.term
+        if t.k == 'call' and (t.resolved or t.callee or '').endswith('assign_incident_cells'):
+            stores.append(t.line)
+    ctx.ob('NEWINC', K1FWD + '|inserted-pointer-set', cfg, bool(stores),
+           'on the success side of the kernel result the stored vertex receives an incident cell (line %s)' % stores[:2] if stores else
+           'a successful cell split leaves the inserted vertex without (or with the caller\'s) incident_cell: later insertions '
+           'whose cavity does not touch it report an isolated vertex, a stale pointer fails Tds::is_valid', site=site)
 
 
 DYN = 'core::algorithms::flips::apply_bistellar_flip_dynamic'
